@@ -9,10 +9,10 @@ CHECKS = {
    text="Every acyclic dependency graph on <=3 files (all labelled in thorough) and all isomorphism classes on 4 files (thorough; six named ones in quick), every input selection, stale/absent pre-state, Build/InMemoryBuild/Verify, five source styles (include; after+run cat; mixed; last dependency on the last line; every dependency twice): ALL orders in which gated worker tasks can complete are executed on the real Txtpp::run; outputs must equal the closed-form serial oracle, the hook trace must show each dependency's final pass ending before the depender's final pass begins, and the outcome set per project must be a singleton.",
    ref="4.5, 5/C02", note=S_NOTE),
  "C03": dict(engine="S", technique="stateless model checking of the real coordinator: exhaustive DFS over all task completion orders under a controlled scheduler",
-   text="All digraphs with self-loops (same sizes as C02) with an execution-marker command per file, input selections including duplicates and aliases (same file twice, source and output name, ./ and ../ spellings, absolute path, symlink to the source, directory named twice, directory symlink): every completion order terminates (controller detects the coordinator polling forever, unbounded task creation, panics), on success each required file has exactly one completed final pass, no pass runs twice, each marker has exactly one line; with a failing file anywhere in the graph the run still terminates (unsaturated and single-thread pools); files spread over directories with all three name shapes and ../ includes; an abstract protocol model bound to every explored schedule is explored on all 5-file digraphs.",
+   text="All digraphs with self-loops (same sizes as C02) with an execution-marker command per file, input selections including duplicates and aliases (same file twice, source and output name, ./ and ../ spellings, absolute path, symlink to the source, directory named twice, directory symlink): every completion order terminates (controller detects the coordinator polling forever, unbounded task creation, panics), on success each required file has exactly one completed final pass, no pass runs twice, each marker has exactly one line; with a failing file anywhere in the graph the run still terminates (unsaturated and single-thread pools); files spread over directories with all three name shapes and ../ includes; dependency lists that name every dependency twice (multi-edges, up to 4 files); an abstract protocol model bound to every explored schedule is explored on all 5-file digraphs.",
    ref="4.5, 5/C03", note=S_NOTE),
  "C05": dict(engine="S", technique="stateless model checking of the real coordinator: exhaustive DFS over all task completion orders under a controlled scheduler",
-   text="All digraphs with self-loops on <=3 files and 4-file classes, all selections, modes Build/InMemoryBuild/Verify: in every completion order a selection that can reach a cycle yields Err (never Hang, never Ok), every required file outside the cycle's upstream closure equals the serial oracle afterwards, and an acyclic selection never fails.",
+   text="All digraphs with self-loops on <=3 files and 4-file classes, all selections, modes Build/InMemoryBuild/Verify: in every completion order a selection that can reach a cycle yields Err (never Hang, never Ok), every required file outside the cycle's upstream closure equals the serial oracle afterwards, and an acyclic selection never fails; also with dependency lists that name every dependency twice.",
    ref="4.5, 5/C05", note=S_NOTE),
 }
 E_NOTE = ("Trusted: the reference model M (harness/src/model.rs, written from the README and bound to the implementation from both sides: every "
@@ -60,7 +60,7 @@ CHECKS.update({
 CHECKS.update({
  "C04": dict(engine="S + X", technique="fault enumeration crossed with stateless model checking: every (fault kind, position, mode, input selection) explored under ALL task completion orders of the real coordinator; write limits enumerated at every byte count on the production binary",
    ref="4.5, 5/C04", note=S_NOTE + " Faults are real OS-level faults (directory in the way, /dev/full, RLIMIT_FSIZE, missing directories, invalid UTF-8); permission faults cannot be produced as root.",
-   text="Project a->b->c plus unrelated d: 15 fault kinds (directive errors, non-zero exit and death by signal of a command, unreadable/invalid includes and sources, occupied or unwritable output and temp paths, in-process write limits, verify mismatches) x 5 positions of the faulty file (root, middle, leaf, sibling, sibling with an empty output) x {build, needed, verify, clean where it applies} x pool sizes (unsaturated, 1, 2) x input selections, each explored under all completion orders: the run must return Err in every schedule (never Ok, hang or panic); the fault-free baseline must return Ok with correct outputs in every schedule. RLIMIT_FSIZE = n for every n from 0 to the largest generated file + 1 on the production binary: exit 0 iff nothing hit the limit, and then all outputs are complete."),
+   text="Project a->b->c plus unrelated d: 15 fault kinds (directive errors, non-zero exit and death by signal of a command, unreadable/invalid includes and sources, occupied or unwritable output and temp paths, in-process write limits, verify mismatches) x 5 positions of the faulty file (root, middle, leaf, sibling, sibling with an empty output) x {build, needed, verify, clean where it applies} x pool sizes (unsaturated, 1, 2) x input selections, each explored under all completion orders: the run must return Err in every schedule (never Ok, hang or panic); the fault-free baseline must return Ok with correct outputs in every schedule. Fault sequences: a fault in a->b plus a directory that vanishes while it waits to be scanned (-r), all completion orders. RLIMIT_FSIZE = n for every n from 0 to the largest generated file + 1 on the production binary: exit 0 iff nothing hit the limit, and then all outputs are complete; and on a project whose outputs end with one chunk > 8 KiB (include, command output, long last line, temp target): every multiple of 512 and +-1 around every multiple of 4096, trailing newline on/off, build and --needed."),
  "C11": dict(engine="E-tree", technique="exhaustive enumeration of directory trees x input lists x options, each executed on the real Txtpp::run (processed sources observed through the hook trace) and compared with a reference set-of-sources function",
    ref="4.7, 5/C11", note="Trusted: the reference function expected_set (harness/src/etree.rs), written from the property statement; canonical schedule.",
    text="8 (quick) / 512 (thorough) trees over 3 directory levels x subsets of the three source-name shapes, with look-alike names in every directory, dotted-stem names and an include variant; input lists of length <=1/2 over 15 spellings (directories, either name, ./ and ../, absolute, missing, look-alikes) x recursive x build/needed/verify/clean x absolute/relative base: the processed set (hook trace), the created / removed / verified outputs and their names must be exactly what the statement prescribes; a target without source must fail."),
